@@ -145,9 +145,12 @@ def extract_backoff(repo, parents):
 
     # the retry loop of _connect
     conn = _find_func(tree, "_connect", cls="AsyncHTTPConnection")
-    handlers = [n for n in ast.walk(conn) if isinstance(n, ast.ExceptHandler)]
+    loops = [n for n in conn.body if isinstance(n, ast.While)]
+    if len(loops) != 1 or ast.unparse(loops[0].test) != "True" or len(loops[0].body) != 1 or not isinstance(loops[0].body[0], ast.Try):
+        raise ExtractError("_connect: expected `while True:` whose body is one try statement")
+    handlers = loops[0].body[0].handlers
     if len(handlers) != 1:
-        raise ExtractError("_connect: expected exactly one except clause")
+        raise ExtractError("_connect: the retry loop's try statement must have exactly one except clause")
     h = handlers[0]
     if h.type is None:
         names = ["BaseException"]
